@@ -160,6 +160,37 @@ func oracleC01(res *RunResult) []Violation {
 			handed[r.Req.LogID] = cur
 		}
 	}
+	if res.Plan.Cfg.Clients > 1 {
+		// several operations in flight: the order of returns means nothing, but any two checkpoints handed out as accepted
+		// for one log lie on one append-only history - one of them extends the other
+		type ho struct {
+			st  Stored
+			idx int
+		}
+		byLog := map[string][]ho{}
+		for _, r := range res.Hist {
+			if r.Op.K == "update" && r.Class == "accept" && r.Req != nil && res.W.LogByID(r.Req.LogID) != nil {
+				if st := parseStored(r.Out); !st.Bad {
+					byLog[r.Req.LogID] = append(byLog[r.Req.LogID], ho{st, r.Idx})
+				}
+			}
+		}
+		for id, hs := range byLog {
+			ld := res.W.LogByID(id)
+		pairs:
+			for i := range hs {
+				for j := i + 1; j < len(hs); j++ {
+					ok1, why := res.W.Compatible(ld.Idx, hs[i].st.Size, hs[i].st.Root, hs[j].st.Size, hs[j].st.Root)
+					ok2, _ := res.W.Compatible(ld.Idx, hs[j].st.Size, hs[j].st.Root, hs[i].st.Size, hs[i].st.Root)
+					if !ok1 && !ok2 {
+						out = append(out, Violation{Class: why, Sig: why + "/handed_out_concurrently", OpIdx: hs[j].idx,
+							Detail: fmt.Sprintf("log %d: ops %d and %d were both answered accepted, with cosigned {%s} and {%s}: neither extends the other", ld.Idx, hs[i].idx, hs[j].idx, cpBrief(hs[i].st), cpBrief(hs[j].st))})
+						break pairs
+					}
+				}
+			}
+		}
+	}
 	// what GetCheckpoint serves after each step must walk the same history
 	served := map[string]Stored{}
 	for _, r := range res.Hist {
@@ -279,6 +310,23 @@ func init() {
 				// racing forks: make clients start from the same state
 				makeConcurrent(r, p)
 				p.Cfg.ReadBack = false
+				if r.Bool() {
+					// a deliberate race: log 0 is first witnessed at size s by client 0; then two requests computed from that same
+					// state - the honest trunk's next checkpoint and a fork's (both with proofs that are valid from size s) - are
+					// issued by two different clients ahead of everything else
+					s0 := uint64(r.Range(1, 9))
+					p.Cfg.Logs[0].Forks[0] = ForkCfg{Parent: 0, At: s0 + uint64(r.IntN(2))}
+					race := []Op{
+						{C: 0, K: "update", L: 0, Sz: "abs", D: s0, Old: "zero", P: "empty"},
+						{C: 0, K: "update", L: 0, B: 0, Sz: "abs", D: s0 + uint64(r.Range(1, 6)), Old: "abs", OldV: s0, P: "honest_old"},
+						{C: 1, K: "update", L: 0, B: 1, Sz: "abs", D: s0 + uint64(r.Range(1, 6)), Old: "abs", OldV: s0, P: "honest_old"},
+					}
+					if r.Bool() {
+						race[1].C, race[2].C = 1, 0
+					}
+					p.Ops = append(race, p.Ops...)
+					p.Tape = genTape(r, 8*len(p.Ops)+8)
+				}
 			case 2:
 				addFaults(r, p, 0.06)
 			case 3:
@@ -359,7 +407,21 @@ func (w *World) witnessSigOver(text string, note []byte) bool {
 
 func oracleC03(res *RunResult) []Violation {
 	var out []Violation
+	sets := setsByLog(res)
 	for _, r := range res.Hist {
+		if r.Op.K == "update" && r.Err != nil && r.Pre == nil && len(r.Out) > 0 && r.Req != nil && res.W.witnessSigOver(r.Req.Text, r.Out) {
+			// without snapshots (requests racing each other): whatever a refusal returns, it is not a witness signature over the
+			// refused text - unless those very bytes are something the store took at some point (a stale resubmission of
+			// the current checkpoint is answered with the stored, cosigned copy of the same text)
+			stored := false
+			for _, st := range sets[r.Req.LogID] {
+				stored = stored || string(st.Bytes) == string(r.Out)
+			}
+			if !stored {
+				out = append(out, Violation{Class: "cosignature_leaked_on_refusal", Sig: "cosignature_leaked_on_refusal/racing/" + r.Class, OpIdx: r.Idx,
+					Detail: fmt.Sprintf("op %d (%s) refused with %q yet returned %s: a witness signature over the refused text, in bytes the store never took", r.Idx, r.Req.Desc, r.Err, short(r.Out))})
+			}
+		}
 		if r.Op.K != "update" || r.Err == nil || r.Pre == nil || r.Post == nil {
 			continue
 		}
@@ -831,6 +893,11 @@ func init() {
 			switch n % 3 {
 			case 1:
 				makeConcurrent(r, p)
+				for i := range p.Ops {
+					if p.Ops[i].K == "update" && r.Chance(0.1) {
+						p.Ops[i].Ms = -1 // ... also while other requests for the same log are in flight
+					}
+				}
 			case 2:
 				addFaults(r, p, 0.08)
 			default:
